@@ -5,6 +5,8 @@
 // ===================================================================================================
 impl Val {
     #[verifier::external_body]
+    pub fn decay(&self) -> (r: Cow<'_, Val>) ensures r.view().v() == decayed(self.v()), (r is Borrowed) == !(*self is Array), r is Borrowed ==> r.view() == *self { unimplemented!() }
+    #[verifier::external_body]
     pub fn is_truthy(&self) -> (r: bool) ensures r == truthy(self.v()) { unimplemented!() }
     #[verifier::external_body]
     pub fn equals(&self, other: &Val) -> (r: bool) ensures r == spec_equals(self.v(), other.v()) { unimplemented!() }
